@@ -340,3 +340,47 @@ def finish(ctx, lean, module, level="proof"):
           f"cases={ctx.evals} distinct_nontrivial={len(ctx.sigs)} mismatches={len(ctx.mismatches)} "
           f"failures={len(ctx.failures)} wall={wall}s")
     return 1 if violations else 0
+
+
+# ----------------------------------------------------------------------------- parallel sub-cases
+def _child(payload):
+    modname, fname, prop, tier, seed, k, args = payload
+    import importlib
+    here = os.path.dirname(os.path.abspath(__file__))
+    if here not in sys.path:
+        sys.path.insert(0, here)
+    fn = getattr(importlib.import_module(modname), fname)
+    ctx = Ctx(prop, tier, seed)
+    ctx.rng = random.Random(seed * 7919 + k)
+    try:
+        fn(ctx, *args)
+    finally:
+        if ctx.drv is not None:
+            ctx.drv.close()
+    return dict(evals=ctx.evals, traces=ctx.traces, sigs=list(ctx.sigs), samples=jsonable(ctx.samples), hist=ctx.hist,
+                mismatches=jsonable(ctx.mismatches), failures=jsonable(ctx.failures), notes=ctx.notes, skipped=ctx.skipped,
+                known={k_: dict(entry=v["entry"], n=v["n"], first=v["first"]) for k_, v in ctx.known_hits.items()})
+
+
+def parallel_cases(ctx, fn, args_list, jobs=8):
+    """run fn(ctx_child, *args) for every args in a process pool and merge what the children recorded into ctx"""
+    from concurrent.futures import ProcessPoolExecutor
+    import multiprocessing as mp
+    payloads = [(fn.__module__, fn.__name__, ctx.prop, ctx.tier, ctx.seed, k, a) for k, a in enumerate(args_list)]
+    with ProcessPoolExecutor(max_workers=jobs, mp_context=mp.get_context("spawn")) as ex:
+        for r in ex.map(_child, payloads):
+            ctx.evals += r["evals"]
+            ctx.traces += r["traces"]
+            ctx.sigs.update(r["sigs"])
+            for s in r["samples"]:
+                if len(ctx.samples) < 6:
+                    ctx.samples.append(s)
+            for k_, v in r["hist"].items():
+                ctx.count(k_, v)
+            for k_, v in r["skipped"].items():
+                ctx.skipped[k_] = ctx.skipped.get(k_, 0) + v
+            ctx.mismatches += r["mismatches"][: max(0, 50 - len(ctx.mismatches))]
+            ctx.failures += r["failures"][: max(0, 50 - len(ctx.failures))]
+            for k_, v in r["known"].items():
+                h = ctx.known_hits.setdefault(k_, dict(entry=v["entry"], n=0, first=v["first"]))
+                h["n"] += v["n"]
